@@ -31,7 +31,8 @@ func runC18(c *core.Ctx) {
 	c.Rule("C18.multiline", "A2: the reader does not assume that a point is one line: while the record does not parse and input remains, the next line is appended (with the newline) and parsing is retried")
 	c.Rule("C18.batchjson", "A7: every field of bufferedBatchMessageJSON/batchPointMessageJSON that MarshalJSON sets is consumed by UnmarshalJSON and every field consumed is set; exceptions are listed with a reason")
 	c.Rule("C18.types", "A7: number-carrying fields of the batch JSON carrier (models.Fields = map[string]interface{}) are decoded with their integer/float distinction preserved (typed UnmarshalJSON or tagged values); decoding into interface{} turns every int64 into float64")
-	c.Rule("C18.shift", "A1/A2: in replayStreamFromChan and replayBatchFromChan the offset `diff` is assigned only together with `start`, under the start.IsZero() guard; every point's replay time is its own time plus diff; the point's time is rewritten exactly when recTime is false (on a copy for stream points), and the collector receives the rewritten (or untouched) point")
+	c.Rule("C18.reader", "A1/A9b: F57-F59: the scanner reading a stream recording has its token limit raised explicitly and a split function other than bufio.ScanLines (lines end with a new line only); the points parsed from a record are indexed only on paths where their number was tested")
+	c.Rule("C18.shift", "A1/A2: in replayStreamFromChan and replayBatchFromChan the offset `diff` is assigned only together with `start`, under the start.IsZero() guard; every point's replay time is its own time plus diff; the point's time is rewritten exactly when recTime is false (on a copy for stream points), and the collector receives the rewritten (or untouched) point; the branch of replayBatchFromChan that shifts the points also shifts the batch's own time by the same offset (F60)")
 	c.Rule("C18.deliver", "A2: every point/batch read from the source is handed to the collector or channel: the loops are left only by returning an error, the stream reader skips nothing, the readers close their channel and the source on every exit (deferred), the replayers close the collector (deferred)")
 	c.Rule("C18.end", "A3: the replay result is reported after every helper goroutine has reported: the capacity of the result channel equals the number of goroutines that send on it and the waiting loop receives that many results, forwarding the first error")
 	c.Rule("C18.order", "A3: fileSource.BatchReaders hands out one reader per archive entry in archive order (no re-ordering), and batchArchive.Archive names entries by the batch index they are written in")
@@ -47,6 +48,8 @@ func runC18(c *core.Ctx) {
 	c18Codec(c, root, edgePkg)
 	c18BatchJSON(c, edgePkg)
 	c18Shift(c, root)
+	c18BatchTime(c, root)
+	c18Reader(c, root)
 	c18Deliver(c, root)
 	c18End(c, root)
 	c18Order(c, rep)
@@ -1173,4 +1176,207 @@ func loopCarried(info *types.Info, body *ast.BlockStmt, e ast.Expr) string {
 		return true
 	})
 	return found
+}
+
+// c18Reader: F57–F59, the scanner that reads a stream recording.
+//   F58: its token limit is raised explicitly (a point is as long as its fields are; the default 64 KiB ends the replay);
+//   F59: its split function is not bufio.ScanLines (which also drops a carriage return before the new line — data of a string
+//        field — while the continuation lines are joined with new lines only);
+//   F57: the result of the line-protocol parser is indexed only on paths where its length was tested (the parser returns no
+//        point and no error for a blank or comment line; the reader goroutine has no recover).
+func c18Reader(c *core.Ctx, pkg *packages.Package) {
+	fn := c.Need("C18.reader", "", "", "readPointsFromIO")
+	if fn == nil {
+		return
+	}
+	info := pkg.TypesInfo
+	var scanner types.Object
+	ast.Inspect(fn.Decl.Body, func(nd ast.Node) bool {
+		if as, ok := nd.(*ast.AssignStmt); ok && len(as.Lhs) == 1 && len(as.Rhs) == 1 {
+			if call, ok := as.Rhs[0].(*ast.CallExpr); ok {
+				if f := core.Callee(info, call); f != nil && f.Pkg() != nil && f.Pkg().Path() == "bufio" && f.Name() == "NewScanner" {
+					if id, ok := as.Lhs[0].(*ast.Ident); ok {
+						scanner = info.Defs[id]
+					}
+				}
+			}
+		}
+		return true
+	})
+	if scanner == nil {
+		c.Undecided("C18.reader", "readPointsFromIO#scanner", fn.Decl.Pos(), "no bufio.NewScanner found: the reader is built differently, the rule does not know how")
+		return
+	}
+	buffer, split := false, ""
+	ast.Inspect(fn.Decl.Body, func(nd ast.Node) bool {
+		call, ok := nd.(*ast.CallExpr)
+		if !ok {
+			return true
+		}
+		sel, ok := call.Fun.(*ast.SelectorExpr)
+		if !ok {
+			return true
+		}
+		if id, ok := ast.Unparen(sel.X).(*ast.Ident); !ok || info.Uses[id] != scanner {
+			return true
+		}
+		switch sel.Sel.Name {
+		case "Buffer":
+			buffer = true
+		case "Split":
+			if len(call.Args) == 1 {
+				split = types.ExprString(call.Args[0])
+				if f, ok := ast.Unparen(call.Args[0]).(*ast.SelectorExpr); ok {
+					if o, ok := info.Uses[f.Sel].(*types.Func); ok && o.Pkg() != nil && o.Pkg().Path() == "bufio" {
+						split = "bufio." + o.Name()
+					}
+				}
+			}
+		}
+		return true
+	})
+	c.Check(buffer, "C18.reader", "readPointsFromIO#line-length", fn.Decl.Pos(), "the scanner that reads the recording keeps bufio's default token limit (64 KiB): a point with a longer line (a large string field) is recorded but ends the replay with 'expected another line', the rest of the recording is dropped")
+	c.Check(split != "" && split != "bufio.ScanLines", "C18.reader", "readPointsFromIO#line-end", fn.Decl.Pos(), "the recording is cut into lines with %q: bufio.ScanLines (the default) also drops a carriage return at the end of a line, and a point continued over several lines is joined with new lines only — the string field \"a\\r\\nb\" is replayed as \"a\\nb\"", map[bool]string{true: "bufio.ScanLines (default)", false: split}[split == ""])
+	// F57
+	eng := &an.Engine{Prog: c.P,
+		TrackExpr: func(x ast.Expr) string {
+			if ix, ok := x.(*ast.IndexExpr); ok {
+				if tv, ok := info.Types[ix.X]; ok {
+					if sl, ok := tv.Type.Underlying().(*types.Slice); ok {
+						if nn := core.NamedOf(sl.Elem()); nn != nil && nn.Obj().Name() == "Point" {
+							return "index"
+						}
+					}
+				}
+			}
+			return ""
+		},
+		Classify: func(a an.Atom) (string, bool) {
+			isLenPoints := func(x ast.Expr) bool {
+				call, ok := ast.Unparen(x).(*ast.CallExpr)
+				if !ok || !core.IsBuiltin(info, call, "len") || len(call.Args) != 1 {
+					return false
+				}
+				if tv, ok := info.Types[call.Args[0]]; ok {
+					if sl, ok := tv.Type.Underlying().(*types.Slice); ok {
+						if nn := core.NamedOf(sl.Elem()); nn != nil && nn.Obj().Name() == "Point" {
+							return true
+						}
+					}
+				}
+				return false
+			}
+			if a.LX != nil && isLenPoints(a.LX) && a.R == "0" {
+				switch a.Op {
+				case token.EQL:
+					return "empty", false
+				case token.NEQ, token.GTR:
+					return "empty", true
+				}
+			}
+			if a.RX != nil && isLenPoints(a.RX) && a.L == "0" && a.Op == token.LSS {
+				return "empty", true
+			}
+			return "", false
+		}}
+	paths, err := eng.Run(fn)
+	if err != nil {
+		c.Undecided("C18.reader", "readPointsFromIO#parsed-empty", fn.Decl.Pos(), "%v", err)
+		return
+	}
+	good, n := true, 0
+	for _, p := range paths {
+		for _, e := range p.Events {
+			if e.Kind == "expr" && e.Name == "index" {
+				n++
+				if v, ok := p.Assign()["empty"]; !ok || v {
+					if good {
+						c.Fail("C18.reader", "readPointsFromIO#parsed-empty", e.Pos, "the points parsed from a record are indexed without a test of their number on path [%s]: the line-protocol parser returns no point and no error for a blank line or a line starting with # (a measurement named #m is recorded as such a line), the index panics in the reader goroutine, which nothing recovers — the daemon ends", p.Cond())
+					}
+					good = false
+				}
+			}
+		}
+	}
+	if good && n > 0 {
+		c.Ok("C18.reader", "readPointsFromIO#parsed-empty")
+	}
+	c.Floor("C18.reader", "paths indexing the parsed points", n, 1)
+}
+
+// c18BatchTime: F60. Without recording time the batch's own time (the recorded query's stop time) is shifted by the same offset
+// as its points: in replayBatchFromChan, the branch that rewrites the points' times also sets the begin message's time to its
+// old time plus the offset.
+func c18BatchTime(c *core.Ctx, pkg *packages.Package) {
+	fn := c.Need("C18.shift", "", "", "replayBatchFromChan")
+	if fn == nil {
+		return
+	}
+	info := pkg.TypesInfo
+	found, shifted := false, false
+	ast.Inspect(fn.Decl.Body, func(nd ast.Node) bool {
+		is, ok := nd.(*ast.IfStmt)
+		if !ok {
+			return true
+		}
+		// the branch that rewrites the points: contains points[i].SetTime(… .Add(diff) …)
+		rewrites := func(b *ast.BlockStmt) (string, bool) {
+			diff := ""
+			ast.Inspect(b, func(k ast.Node) bool {
+				call, ok := k.(*ast.CallExpr)
+				if !ok {
+					return true
+				}
+				sel, ok := call.Fun.(*ast.SelectorExpr)
+				if !ok || sel.Sel.Name != "SetTime" || len(call.Args) != 1 {
+					return true
+				}
+				if _, isIdx := ast.Unparen(sel.X).(*ast.IndexExpr); !isIdx {
+					return true
+				}
+				ast.Inspect(call.Args[0], func(m ast.Node) bool {
+					if ac, ok := m.(*ast.CallExpr); ok {
+						if as, ok := ac.Fun.(*ast.SelectorExpr); ok && as.Sel.Name == "Add" && len(ac.Args) == 1 {
+							if tv, ok := info.Types[ac.Args[0]]; ok && tv.Type.String() == "time.Duration" {
+								diff = types.ExprString(ac.Args[0])
+							}
+						}
+					}
+					return true
+				})
+				return true
+			})
+			return diff, diff != ""
+		}
+		for _, b := range []*ast.BlockStmt{is.Body} {
+			diff, ok := rewrites(b)
+			if !ok {
+				continue
+			}
+			found = true
+			ast.Inspect(b, func(k ast.Node) bool {
+				call, ok := k.(*ast.CallExpr)
+				if !ok {
+					return true
+				}
+				sel, ok := call.Fun.(*ast.SelectorExpr)
+				if !ok || sel.Sel.Name != "SetTime" || len(call.Args) != 1 {
+					return true
+				}
+				if rc, ok := ast.Unparen(sel.X).(*ast.CallExpr); !ok || !strings.HasSuffix(types.ExprString(rc.Fun), ".Begin") {
+					return true
+				}
+				if strings.Contains(types.ExprString(call.Args[0]), ".Add("+diff+")") {
+					shifted = true
+				}
+				return true
+			})
+		}
+		return true
+	})
+	if !found {
+		c.Undecided("C18.shift", "replayBatchFromChan#batch-time", fn.Decl.Pos(), "the branch that rewrites the points' times was not found")
+		return
+	}
+	c.Check(shifted, "C18.shift", "replayBatchFromChan#batch-time", fn.Decl.Pos(), "the branch that shifts the points of a batch to the replay clock does not shift the batch's own time by the same offset: the recorded query's stop time stays where it was (or is only raised to the last point), so nodes that stamp their result with the batch time emit at other relative times than when the data was recorded — timestamps are no longer all shifted by one constant")
 }
